@@ -10,6 +10,7 @@ import (
 	"context"
 	"fmt"
 	"math/big"
+	"strings"
 	"time"
 
 	corestore "cosmossdk.io/core/store"
@@ -239,4 +240,18 @@ func Atomically(ctx sdk.Context, f func(ctx sdk.Context) error) error {
 		write()
 	}
 	return err
+}
+
+// StateDigest is a digest of everything the module has in its store (natively: all key/value pairs of the
+// orbiter store; symbolically: the content of every summarised collection).
+func StateDigest(ctx sdk.Context) string {
+	var sb strings.Builder
+	for _, k := range ctx.MultiStore().(interface{ StoreKeysByName() map[string]storetypes.StoreKey }).StoreKeysByName() {
+		it := ctx.KVStore(k).Iterator(nil, nil)
+		for ; it.Valid(); it.Next() {
+			fmt.Fprintf(&sb, "%x=%x;", it.Key(), it.Value())
+		}
+		it.Close()
+	}
+	return sb.String()
 }
